@@ -44,7 +44,7 @@ func init() {
 		MinEvals:        floor(20000, 300000),
 		MinDistinct:     floor(150, 400),
 		RequiredCells: func(string) []string {
-			cells := []string{"phaseA", "phaseB", "phaseB/race-build", "overlap/same-token", "token/constructed", "token/decoded", "k=0", "k=1", "k=2", "k=5", "k=50", "k=300", "G=2", "G=4", "G=16", "G=64"}
+			cells := []string{"pristine/phaseA", "pristine/phaseB", "phaseA", "phaseB", "phaseB/race-build", "overlap/same-token", "token/constructed", "token/decoded", "k=0", "k=1", "k=2", "k=5", "k=50", "k=300", "G=2", "G=4", "G=16", "G=64"}
 			for _, o := range c20OpNames() {
 				cells = append(cells, "op/"+o)
 			}
@@ -476,6 +476,7 @@ func runC20(w *mon.W) {
 	r := w.Rng
 	ops := c20Ops()
 	ks := []int{0, 1, 2, 5, 50, 300}
+	c20Pristine(w)
 	// ---------------- Phase A
 	for rep := 0; rep < w.Pick(2, 6); rep++ {
 		for _, k := range ks {
